@@ -250,6 +250,95 @@ func (c *Ctx) c28Ident(name string, findings bool, bucket string) {
 
 // ---- whole grammars ----
 
+// c28ExplicitID generates the text of an explicit `(ID)` clause: a tm identifier (ID token incl. keywords) mixing
+// upper and lower case, '-' and '_' at various places and digits, built from the grammar's stems so that
+// explicit IDs collide with each other and with derived IDs.
+func c28ExplicitID(r *rand.Rand, stems []string) string {
+	up := strings.ToUpper
+	title := func(s string) string { return up(s[:1]) + s[1:] }
+	w1 := stems[r.Intn(len(stems))]
+	w2 := stems[r.Intn(len(stems))]
+	d := fmt.Sprint(r.Intn(10))
+	for {
+		var id string
+		switch r.Intn(30) {
+		case 0:
+			id = w1 + "_" + w2
+		case 1:
+			id = w1 + "-" + w2
+		case 2:
+			id = w1 + w2
+		case 3:
+			id = w1 + d
+		case 4:
+			id = w1 + title(w2) // thinArrow
+		case 5:
+			id = title(w1) + "-" + title(w2)
+		case 6:
+			id = w1 + "-" + title(w2) // fat-Arrow
+		case 7:
+			id = title(w1) + w2
+		case 8:
+			id = up(w1) + "_" + w2
+		case 9:
+			id = w1 + "_" + up(w2)
+		case 10:
+			id = "_" + title(w1)
+		case 11:
+			id = title(w1) + d
+		case 12:
+			id = w1[:1] + up(w2) + "-" + d
+		case 13:
+			id = up(w1) + "_" + up(w2)
+		case 14:
+			id = up(w1) + up(w2)
+		case 15:
+			id = up(w1) + "-" + up(w2) // verbatim, not an identifier (known class)
+		case 16:
+			id = "_" // verbatim blank identifier (known class)
+		case 17:
+			id = "_" + up(w1)
+		case 18:
+			id = up(w1) + "_"
+		case 19:
+			id = up(w1) + "__" + up(w2)
+		case 20:
+			id = up(w1) + d
+		case 21:
+			id = up(w1) + "-" + d // verbatim, not an identifier (known class)
+		case 22:
+			id = []string{"true", "false", "set", "as", "import", "separator", "no-eoi", "expect-rr", "s", "x", "input", "class", "Set", "AS", "No-Eoi"}[r.Intn(15)]
+		case 23:
+			id = up(w1[:1]) + w1[1:] + "_" + title(w2) + "-" + d + "x"
+		case 24:
+			id = w1 + "--" + up(w2)
+		case 25:
+			id = "__"
+		case 26:
+			id = "_" + d
+		case 27:
+			id = w1[:1] + "_" + "-" + up(w2) + "_"
+		default:
+			id = c28RandID(r)
+		}
+		if id != "" && id[0] != '\'' && id[0] != '"' && c28TmName(id) {
+			return id
+		}
+	}
+}
+
+// c28ExplicitBad is exactly the class of admitted explicit `(ID)` clauses for which the unchanged compiler is
+// known to emit a non-identifier without reporting an error: no lower-case letter (such IDs are taken verbatim)
+// and either a '-' inside or the lone blank identifier `_`.
+func c28ExplicitBad(id string) bool {
+	if id == "" || strings.ContainsFunc(id, func(r rune) bool { return r >= 'a' && r <= 'z' }) {
+		return false
+	}
+	return id == "_" || strings.Contains(id, "-")
+}
+
+var c28UpperRE = regexp.MustCompile(`^[A-Z0-9_]+$`)
+
 type c28Tok struct{ name, id string }
 
 func c28Variant(r *rand.Rand, w1, w2 string, nonterm bool) (name, id string) {
@@ -298,8 +387,8 @@ func c28Variant(r *rand.Rand, w1, w2 string, nonterm bool) (name, id string) {
 var c28Stems = []string{"a", "b", "ab", "foo", "bar", "id", "x", "s", "plus", "char", "eoi", "invalid", "token", "input", "esc", "lt", "e", "o", "i"}
 var c28Hard = map[string]bool{"true": true, "false": true, "separator": true, "as": true, "import": true, "set": true}
 
-// c28IdOK: IDs of the grammar generator stay inside the class for which the identifier is valid
-// (unless findings mode): keeps the known defect class out of the whole-grammar stream.
+// c28GramName picks a symbol name (and for some variants an explicit ID) for the whole-grammar stream. The
+// known defect classes are NOT filtered out: the oracle classifies them per symbol (see c28CheckSyms).
 func c28GramName(r *rand.Rand, stems []string, nonterm, findings bool) (name, id string) {
 	for {
 		name, id = "", ""
@@ -339,18 +428,6 @@ func c28GramName(r *rand.Rand, stems []string, nonterm, findings bool) (name, id
 		}
 		if nonterm && (name == "error" || name == "eoi" || name == "invalid_token") && r.Intn(4) != 0 {
 			continue
-		}
-		if !findings {
-			st := ident.UpperCase
-			if nonterm {
-				st = ident.CamelCase
-			}
-			if c28KnownBad(name, st) {
-				continue
-			}
-			if id != "" && !c28ValidIdent(id) {
-				continue
-			}
 		}
 		return name, id
 	}
@@ -396,6 +473,9 @@ func (c *Ctx) c28Grammar(findings bool) {
 			continue
 		}
 		name, id := c28GramName(r, stems, false, findings)
+		if id == "" && r.Intn(3) == 0 {
+			id = c28ExplicitID(r, stems)
+		}
 		toks = append(toks, c28Tok{name, id})
 	}
 	nts := []string{"input"}
@@ -413,15 +493,32 @@ func (c *Ctx) c28Grammar(findings bool) {
 			nts = append(nts, name)
 		}
 	}
+	c.c28GrammarCase(toks, nts, r.Intn(5) == 0, findings)
+}
+
+// c28GrammarCase renders the declarations as a .tm grammar, runs compiler.Compile and records the case.
+// flex: a C++ grammar with flexMode = true (lexemes are declared without patterns and go through
+// lexerCompiler.parseFlexDeclarations, which has its own copy of the explicit-ID code).
+func (c *Ctx) c28GrammarCase(toks []c28Tok, nts []string, flex, findings bool) {
 	var src strings.Builder
-	src.WriteString("language x(go);\n\n:: lexer\n\n")
+	op := "gram"
+	if flex {
+		op = "gramf"
+		src.WriteString("language x(cc);\n\nflexMode = true\n\n:: lexer\n\n")
+	} else {
+		src.WriteString("language x(go);\n\n:: lexer\n\n")
+	}
 	var tparts []string
 	for i, t := range toks {
 		src.WriteString(t.name)
 		if t.id != "" {
 			fmt.Fprintf(&src, " (%s)", t.id)
 		}
-		fmt.Fprintf(&src, ": /q%dz/\n", i)
+		if flex {
+			src.WriteString(":\n")
+		} else {
+			fmt.Fprintf(&src, ": /q%dz/\n", i)
+		}
 		id := "-"
 		if t.id != "" {
 			id = hexs([]byte(t.id))
@@ -434,12 +531,15 @@ func (c *Ctx) c28Grammar(findings bool) {
 		fmt.Fprintf(&src, "%s: tok ;\n", n)
 		nparts = append(nparts, hexs([]byte(n)))
 	}
-	line := fmt.Sprintf("gram %s %s", strings.Join(tparts, ","), strings.Join(nparts, ","))
+	line := fmt.Sprintf("%s %s %s", op, strings.Join(tparts, ","), strings.Join(nparts, ","))
 
-	ans, ids := c28Compile(src.String(), toks, nts)
+	ans, syms, numTokens := c28Compile(src.String(), toks, nts)
 	kind := strings.SplitN(ans, " ", 2)[0]
 	if kind == "err" {
 		kind = "err " + strings.SplitN(strings.SplitN(ans, " ", 2)[1], ":", 2)[0]
+	}
+	if flex {
+		kind = "(flex) " + kind
 	}
 	c.Count("grammar " + kind)
 	if strings.HasPrefix(ans, "err dup:") {
@@ -459,23 +559,74 @@ func (c *Ctx) c28Grammar(findings bool) {
 	if len(c.Samples) < 8 && c.Dist["grammar "+kind] == 1 {
 		c.Samples = append(c.Samples, strings.ReplaceAll(src.String(), "\n", "\\n")+" => "+ans)
 	}
-	// independent oracle: no error although two symbols of the compiled grammar share an ID, or an ID is
-	// not a valid identifier
-	if strings.HasPrefix(ans, "ok ") {
-		seen := map[string]bool{}
-		for _, id := range ids {
-			if seen[id] {
-				c.Violate(fmt.Sprintf("compiler.Compile reports no error although two symbols get the ID %q", id), src.String())
-			}
-			seen[id] = true
-			if !c28ValidIdent(id) {
-				c.Violate(fmt.Sprintf("compiler.Compile reports no error although a symbol gets the ID %q (not a valid non-blank identifier)", id), src.String())
-			}
+	c.c28CheckSyms(ans, syms, numTokens, toks, src.String(), findings)
+}
+
+type c28Sym struct{ name, id string }
+
+// c28CheckSyms is the oracle of the whole-grammar stream, stated from the property text: when compiler.Compile
+// reports no error, EVERY symbol of the compiled grammar (terminals with derived and explicit IDs,
+// nonterminals) has an ID that is a non-empty, non-blank identifier valid in Go, C++ and TypeScript, in the
+// requested casing style (terminals: upper-case, i.e. [A-Z0-9_]+; nonterminals: camel-case with an upper-case
+// initial, i.e. not starting with a lower-case letter), and distinct symbols have distinct IDs.
+// Symbols in the two known defect classes are reported with their stable tokens (a few times only).
+func (c *Ctx) c28CheckSyms(ans string, syms []c28Sym, numTokens int, toks []c28Tok, src string, findings bool) {
+	if !strings.HasPrefix(ans, "ok ") {
+		return
+	}
+	explicit := map[string]string{}
+	for _, t := range toks {
+		if _, ok := explicit[t.name]; !ok {
+			explicit[t.name] = t.id
 		}
+	}
+	known := func(token, what string) {
+		c.Count("known class " + token)
+		if c.Dist["known class "+token] <= 2 || findings {
+			c.Violate(what+" "+token, src)
+		}
+	}
+	seen := map[string]string{}
+	for i, s := range syms {
+		if prev, ok := seen[s.id]; ok {
+			c.Violate(fmt.Sprintf("compiler.Compile reports no error although the symbols %q and %q get the same ID %q", prev, s.name, s.id), src)
+		}
+		seen[s.id] = s.name
+		terminal := i < numTokens
+		if terminal && s.name == "error" && s.id == "YYerror" {
+			continue // the built-in bison error token of flex mode
+		}
+		valid := c28ValidIdent(s.id)
+		styleOK := s.id == "" || !(s.id[0] >= 'a' && s.id[0] <= 'z')
+		kind, style := "nonterminal", "camel-case with an upper-case initial"
+		if terminal {
+			styleOK = c28UpperRE.MatchString(s.id) || !valid
+			kind, style = "terminal", "upper-case"
+		}
+		if valid && styleOK {
+			continue
+		}
+		what := fmt.Sprintf("compiler.Compile reports no error although the %s %q gets the ID %q", kind, s.name, s.id)
+		if !valid {
+			what += " (not a valid non-blank identifier)"
+		} else {
+			what += " (a valid identifier but not in the " + style + " style)"
+		}
+		switch {
+		case terminal && explicit[s.name] != "":
+			if c28ExplicitBad(explicit[s.name]) && s.id == explicit[s.name] {
+				known("[C28-explicit-id-verbatim]", what)
+				continue
+			}
+		case terminal && c28KnownBad(s.name, ident.UpperCase), !terminal && c28KnownBad(s.name, ident.CamelCase):
+			known("[C28-degenerate-name]", what)
+			continue
+		}
+		c.Violate(what, src)
 	}
 }
 
-func c28Compile(src string, toks []c28Tok, nts []string) (ans string, ids []string) {
+func c28Compile(src string, toks []c28Tok, nts []string) (ans string, syms []c28Sym, numTokens int) {
 	defer func() {
 		if e := recover(); e != nil {
 			ans = "panic"
@@ -486,14 +637,14 @@ func c28Compile(src string, toks []c28Tok, nts []string) (ans string, ids []stri
 		var parts []string
 		for _, s := range g.Syms {
 			parts = append(parts, hexs([]byte(s.ID)))
-			ids = append(ids, s.ID)
+			syms = append(syms, c28Sym{s.Name, s.ID})
 		}
-		return "ok " + strings.Join(parts, ","), ids
+		return "ok " + strings.Join(parts, ","), syms, g.NumTokens
 	}
 	if g == nil {
-		return "syntax " + hexs([]byte(err.Error())), nil
+		return "syntax " + hexs([]byte(err.Error())), nil, 0
 	}
-	names := []string{"eoi", "invalid_token"}
+	names := []string{"eoi", "error", "invalid_token"}
 	for _, t := range toks {
 		names = append(names, t.name)
 	}
@@ -517,7 +668,7 @@ func c28Compile(src string, toks []c28Tok, nts []string) (ans string, ids []stri
 		}
 		parts = append(parts, k)
 	}
-	return "err " + strings.Join(parts, ";"), nil
+	return "err " + strings.Join(parts, ";"), nil, 0
 }
 
 func c28(c *Ctx) {
@@ -526,11 +677,26 @@ func c28(c *Ctx) {
 		"names = exhaustive one-byte and escaped one-byte quoted names in both quote kinds (covers the charName table), every single rune U+0080..U+017F quoted, keyword-like words, random ID spellings over biased alphabets " +
 		"(humps, digits, '_', '-'), quoted names built from punctuation/words/escapes/non-ASCII/invalid UTF-8, and a malformed stream (random bytes, unbalanced quotes, '$' names); " +
 		"non-trivial = lexer-admitted name longer than one byte, distinct by (style,name). " +
-		"gram: .tm grammars (1-6 lexemes with optional explicit (ID), 1-5 nonterminals) whose names are variants of shared stems so that IDs collide " +
-		"(a_b/a-b/aB/AB/'ab'/char-name spellings/eoi/invalid_token), run through compiler.Compile; answer = Syms[].ID or the classified error list. " +
-		"Harness oracle: lexer-admitted name with an invalid identifier, or no error with two equal / invalid IDs. " +
-		"The known defect class (names '' \"\" and unquoted names of '_'/'-' only, explicit (ID) clauses that are not identifiers) is still compared against the model in the ident stream but not flagged, " +
-		"and is kept out of the grammar stream; set VERIF_FINDINGS=1 to include and flag it."
+		"gram: .tm grammars (1-6 lexemes, 1-5 nonterminals; one in five as a C++ flexMode grammar = the second copy of the explicit-ID code) whose names are variants of shared stems so that IDs collide " +
+		"(a_b/a-b/aB/AB/'ab'/char-name spellings/eoi/invalid_token); a third of the lexemes (ID-named and quoted) carry an explicit (ID) clause built from the same stems: " +
+		"all-lower, all-upper and MIXED case (thinArrow, fat-Arrow, Foo-Bar, FOO_bar, _Foo), '-'/'_'/'--'/'__' inside, leading/trailing '_', digits, keywords (set, as, No-Eoi); " +
+		"run through compiler.Compile; answer = Syms[].ID or the classified error list. " +
+		"Harness oracle (from the property text): a lexer-admitted name whose Produce result is not a valid identifier; for a grammar compiled without error, EVERY symbol " +
+		"(terminals with derived and explicit IDs, nonterminals) must have a non-blank identifier valid in Go/C++/TS in the requested style (terminals [A-Z0-9_]+, nonterminals not starting with a lower-case letter) " +
+		"and distinct symbols distinct IDs. " +
+		"Two known defect classes stay in both streams, are compared against the model and reported with stable tokens: [C28-degenerate-name] (names '' \"\" and unquoted names of '_'/'-' only) and " +
+		"[C28-explicit-id-verbatim] (explicit (ID) without lower-case letters containing '-' or being '_' is taken verbatim); VERIF_FINDINGS=1 reports every occurrence."
+	// 0. probes of the known defect classes on the real compiler.Compile (reported once, with stable tokens)
+	for _, pr := range []struct {
+		toks []c28Tok
+		nts  []string
+	}{
+		{[]c28Tok{{"tok", ""}, {"foo", "A-B"}, {"'=>'", "FAT-ARROW"}, {"b", "_"}}, []string{"input"}},
+		{[]c28Tok{{"tok", ""}, {"_", ""}, {"''", ""}}, []string{"input", "_"}},
+	} {
+		c.c28GrammarCase(pr.toks, pr.nts, false, findings)
+		c.c28GrammarCase(pr.toks, pr.nts, true, findings)
+	}
 	// 1. exhaustive single-byte quoted names
 	for b := 0; b < 256; b++ {
 		if b == '\n' {
